@@ -266,6 +266,30 @@ func driveB(run *hx.Run, model *hx.Model, u *universe) {
 			known[o.what]++
 		}
 	}
+	// systematic sweep: an object on one replica only, 1..12 filler uploads on
+	// that replica (every position of the object relative to the block
+	// boundaries and to the old region), read with either replica first
+	count := 0
+	for _, kind := range replKinds {
+		for _, old := range []int{1, 2} {
+			for _, nw := range []int{1, 3} {
+				for _, sectors := range []int{6, 9} {
+					for fill := 1; fill <= 12; fill++ {
+						for _, side := range []string{"A", "B"} {
+							script := []string{fmt.Sprintf("#cfg b %s %s %d 1 %d 1 %d", kind, kind, old, nw, sectors),
+								"place 1 " + side, fmt.Sprintf("fill %s %d", side, fill), "get 1", "get 1", "fm 1 2"}
+							o := handleB(run, model, u, fmt.Sprintf("sweep/%d", count), script, known)
+							count++
+							if o.what == whatD1 || o.what == whatQ {
+								known[o.what]++
+							}
+						}
+					}
+				}
+			}
+		}
+	}
+	run.Extra("mode_b_sweep_cases", count)
 	run.Extra("mode_b_cases_hitting_D1", known[whatD1])
 	run.Extra("mode_b_cases_hitting_queued_not_found", known[whatQ])
 }
